@@ -144,3 +144,4 @@ def run(ck):
         c = Case('attenuated_signal_test', [data_input('inp', ''), time_input('tinp', [])],
                  dict(suspect_threshold=Fr(2), fail_threshold=Fr(1), **kw), n=0, pat={'inp': ''}, meta={'class': 'empty', 't': []})
         check_case(ck, c, None)
+
